@@ -13,6 +13,10 @@
      demod      [a, b, lab, shapeok]                demodulate(samples): samples (a[c], b[c]) on the
                 rational grid of resolution d (see ConstellationOps.Metric), returned labels
      roundtrip  [idx, lab, shapeok]                 demodulate(modulate(idx))
+   Arrays of every event are listed POSITION BY POSITION in row-major order of the logical index;
+   the harness hands the real object the same logical array in different memory layouts
+   (C, Fortran order, transposed view, strided slice, negative stride, 0-d) - the layout is not part
+   of the event because nothing may depend on it.
    What is demanded of every event is the property text, NOT a particular labelling:
      construct  raises  iff  the cardinality is unsupported; an accepted construction has a table
                 that is WellFormed, Bijective (M distinct points), GrayAdjacent, UnitEnergy
